@@ -124,6 +124,7 @@ uint64_t g_next_preempt;
 static size_t g_dec_pos, g_preempt_pos;
 
 uint64_t g_steps, g_accesses;
+int g_cur_fiber_id;
 int g_sim_active;
 sim_decision *g_trace; size_t g_trace_n; static size_t g_trace_cap;
 uint32_t *g_dec; size_t g_dec_n;
@@ -228,6 +229,7 @@ static void switch_to(Fiber *next)
     prev->saved_errno = errno;
     g_probe[PR_SWITCHES]++;
     g_cur = next;
+    g_cur_fiber_id = next->id;
 #ifdef SIM_ASAN
     __sanitizer_start_switch_fiber(prev->dying ? NULL : &prev->asan_fake, next->stack, next->ssize);
 #endif
@@ -821,13 +823,23 @@ void simomp_preempt_slow(void)
 {
     uint64_t at = g_accesses;
     next_preempt_position();
-    if (g_nfib > 1 && g_sim_active) {
+    if (g_nfib > 1 && g_sim_active && g_preempt_trace_n < 20000) {
         preempt_trace_push(at);
         g_probe[PR_PREEMPTS]++;
         schedule(0x10000u);
     } else if (W.explicit_decisions) {
         preempt_trace_push(at);
     }
+}
+
+void simomp_preempt_now(void)
+{
+    if (W.explicit_decisions || g_nfib < 2 || !g_sim_active) return;
+    if (g_preempt_trace_n >= 4000) return;          /* enough: heavily shared data (DP rows handed between tasks) must not turn a run into a crawl */
+    if (!sim_rng_chance(&g_srng, W.p_shared)) return;
+    preempt_trace_push(g_accesses);
+    g_probe[PR_PREEMPTS]++;
+    schedule(0x10000u);
 }
 
 void simomp_preempt_soon(void)
@@ -858,6 +870,7 @@ void simomp_reset(void)
     g_srng.s = W.sched_seed ^ 0xA5A5A5A55A5A5A5AULL;
     g_steps = 0; g_accesses = 0; g_trace_n = 0; g_dec_pos = 0; g_preempt_pos = 0; g_preempt_trace_n = 0;
     g_crit_lock = g_atomic_lock = 0;
+    g_cur_fiber_id = 0;
     memset(g_probe, 0, sizeof g_probe);
     next_preempt_position();
 }
